@@ -74,6 +74,19 @@ POSITIONS = {
     "match_ignored": (["match {V}", "  _: {H} then 'ok'", "  else 'miss'"], "select"),
     "match_nested": (["match (0, {V})", "  (_, x_: {H}) then 'ok'", "  else 'miss'"], "select"),
     "catch": (["try", "  throw {V}", "catch e_: {H}", "  'ok'", "catch _", "  'miss'"], "select-throw"),
+    # hints on the entries of map patterns: plain key, rebound key, ignored rebound key, string key
+    "map_let": (["let {k_: {H}, j_} = {k_: {V}, j_: 3}", "if j_ == 3 then 'ok' else 'shifted'"], "assert"),
+    "map_let_rebind": (["let {j_, k_ as x_: {H}} = {k_: {V}, j_: 3}", "if j_ == 3 then 'ok' else 'shifted'"], "assert"),
+    "map_let_ignored": (["let {k_ as _: {H}, j_} = {k_: {V}, j_: 3}", "if j_ == 3 then 'ok' else 'shifted'"], "assert"),
+    "map_let_named_ignored": (["let {'k_' as _w: {H}, j_} = {k_: {V}, j_: 3}", "if j_ == 3 then 'ok' else 'shifted'"], "assert"),
+    "map_for": (["r_ = 'none'", "for {k_ as x_: {H}, j_} in [{k_: {V}, j_: 3}]", "  r_ = if j_ == 3 then 'ok' else 'shifted'", "r_"], "assert"),
+    "map_for_ignored": (["r_ = 'none'", "for {j_, k_ as _: {H}} in [{k_: {V}, j_: 3}]", "  r_ = if j_ == 3 then 'ok' else 'shifted'", "r_"], "assert"),
+    "map_arg": (["f_ = |{k_: {H}, j_}| if j_ == 3 then 'ok' else 'shifted'", "f_({k_: {V}, j_: 3})"], "assert"),
+    "map_arg_rebind": (["f_ = |y_, {k_ as x_: {H}, j_}| if j_ == 3 then 'ok' else 'shifted'", "f_(0, {k_: {V}, j_: 3})"], "assert"),
+    "map_arg_ignored": (["f_ = |{k_ as _: {H}, j_}| if j_ == 3 then 'ok' else 'shifted'", "f_({k_: {V}, j_: 3})"], "assert"),
+    "match_map": (["match {k_: {V}, j_: 3}", "  {k_: {H}, j_} then (if j_ == 3 then 'ok' else 'shifted')", "  else 'miss'"], "select"),
+    "match_map_rebind": (["match {k_: {V}, j_: 3}", "  {k_ as x_: {H}, j_} then (if j_ == 3 then 'ok' else 'shifted')", "  else 'miss'"], "select"),
+    "match_map_ignored": (["match {k_: {V}, j_: 3}", "  {j_, k_ as _: {H}} then (if j_ == 3 then 'ok' else 'shifted')", "  else 'miss'"], "select"),
 }
 
 def _grid_shard(shard, n, tier, seed, budget_s):
